@@ -36,6 +36,8 @@ func init() {
 			ruleNoStdUnquote(r)
 			ruleIdentPredicates(r) // which names the parser accepts as labels (regexp capture names, label_format targets)
 			ruleKeywordLookupExact(r)
+			ruleLabelRegexAnchoring(r) // a label regexp is compiled anchored, a line regexp unanchored, whatever else uses the same text
+			ruleParserOptionsReachLexer(r)
 		},
 	})
 }
